@@ -85,7 +85,11 @@ func frHook(point string, a ...interface{}) {
 			id = fr.pkgs + 1 // a packet without payload carries no id
 		}
 		fr.pkgs++
-		fr.rec.Emit("Pkg", "len", len(pkg), "id", id, "uniform", uniform, "hdr", int(binary.BigEndian.Uint32(pkg[:4])))
+		hdr := -1
+		if len(pkg) >= 4 { // a "packet" shorter than its own header can only come from a broken framer: recorded, judged by the spec
+			hdr = int(binary.BigEndian.Uint32(pkg[:4]))
+		}
+		fr.rec.Emit("Pkg", "len", len(pkg), "id", id, "uniform", uniform, "hdr", hdr)
 	case "tcp.recv.parseError", "client.recv.parseError":
 		fr.perr = true
 		fr.rec.Emit("ParseError")
